@@ -72,9 +72,51 @@ Clauses(t) ==
                                        /\ \A n \in DOMAIN t.after : SameBag(Resolve(t.after, n), Resolve(t.before, n))>>,
      <<"matrix-applied",      "P", t.filter = "Transformations" => XformOK(t)>>,
      <<"idempotent",          "P", Has(t, "again") => t.again = t.after>>,
+     <<"anchors-appended",    "P", t.filter = "PropagateAnchors" => AnchorsOnlyAppended(t.before, t.after)>>,
+     <<"anchors-follow",      "P", t.filter = "PropagateAnchors" => NewAnchorsFollowComponents(t.before, t.after)>>,
+     <<"sort-permutes",       "P", t.filter = "SortContours" =>
+                                      \A n \in DOMAIN t.before :
+                                         /\ n \in DOMAIN t.after /\ SameBag(t.after[n].cs, t.before[n].cs)
+                                         /\ [t.after[n] EXCEPT !.cs = <<>>] = [t.before[n] EXCEPT !.cs = <<>>]>>,
      <<"inverse-sane",        "M", t.filter = "Transformations" => Compose(XMatrix(t.opt), t.opt.inv) = Ident>>,
      <<"model-successor",     "M", Model(t).gs = t.after>>,
      <<"model-modified",      "M", Model(t).mod = mod>> >>
+
+\* ---- interpolatable filter invocations: t.masters = << [before, after] ... >> ------------------
+Befores(t) == [k \in 1..Len(t.masters) |-> t.masters[k].before]
+Afters(t)  == [k \in 1..Len(t.masters) |-> t.masters[k].after]
+IModel(t) ==
+  LET inc == SetOf(t.inc)  ms == Befores(t) IN
+  CASE t.filter = "DecomposeComponents" ->
+         IJointModel(ms, inc, HasComps, DecomposeGlyph, LAMBDA g, n : TRUE)
+    [] t.filter = "DecomposeTransformedComponents" ->
+         IJointModel(ms, inc, HasTransformed, DecomposeGlyph, LAMBDA g, n : TRUE)
+    [] t.filter = "SkipExportGlyphs" ->
+         LET sk == SetOf(t.opt.skip)
+             r == IJointModel(ms, AllNames(ms), LAMBDA g : SkipTouches(g, sk),
+                              LAMBDA g, n : SkipExportGlyph(g, n, sk), LAMBDA g, n : TRUE)
+         IN IF sk = {} THEN [ms |-> ms, hit |-> {}]
+            ELSE [ms |-> [k \in 1..Len(ms) |-> [n \in (DOMAIN ms[k]) \ sk |-> r.ms[k][n]]],
+                  hit |-> r.hit \cup (sk \cap AllNames(ms))]
+    [] OTHER -> [ms |-> Afters(t), hit |-> SetOf(t.modified)]
+
+IClauses(t) ==
+  LET mod == SetOf(t.modified)  K == 1..Len(t.masters)  inc == IF t.filter = "SkipExportGlyphs" THEN AllNames(Befores(t)) ELSE SetOf(t.inc) IN
+  << <<"outsiders-untouched", "P", \A k \in K : OutsidersUntouched(t.masters[k].before, t.masters[k].after, inc)>>,
+     <<"reports-changes",     "P", \A k \in K : ReportsChanges(t.masters[k].before, t.masters[k].after, mod)>>,
+     <<"source-untouched",    "P", t.sep => t.srcSame>>,
+     <<"stateless",           "P", Has(t, "fresh") => (t.fresh.afters = Afters(t) /\ SetOf(t.fresh.modified) = mod)>>,
+     <<"render-preserved",    "P", t.filter \in RenderFilters =>
+                                       \A k \in K : RenderPreserved(t.masters[k].before, t.masters[k].after, DOMAIN t.masters[k].before)>>,
+     <<"stays-compatible",    "P", (t.filter \in RenderFilters \cup {"SkipExportGlyphs"} /\ SameDomains(Befores(t)) /\ CompatibleMasters(Befores(t)))
+                                       => CompatibleMasters(Afters(t))>>,
+     <<"skip-removed",        "P", t.filter = "SkipExportGlyphs" => \A k \in K :
+                                       /\ DOMAIN t.masters[k].after = (DOMAIN t.masters[k].before) \ SetOf(t.opt.skip)
+                                       /\ \A n \in DOMAIN t.masters[k].after :
+                                             /\ Bases(t.masters[k].after, n) \cap SetOf(t.opt.skip) = {}
+                                             /\ SameBag(Resolve(t.masters[k].after, n), Resolve(t.masters[k].before, n))>>,
+     <<"model-successor",     "M", IModel(t).ms = Afters(t)>>,
+     <<"model-modified",      "M", IModel(t).hit = mod>> >>
 
 FirstFailing(cl, kind) ==
   LET bad == {k \in 1..Len(cl) : cl[k][2] = kind /\ ~cl[k][3]}
@@ -84,9 +126,9 @@ Init == i = 1
 Next ==
   /\ i <= Len(Traces)
   /\ LET t == Traces[i]
-         cl == Clauses(t)
+         cl == IF Has(t, "masters") THEN IClauses(t) ELSE Clauses(t)
      IN PrintT(<<"VERDICT", t.tid, FirstFailing(cl, "P"), FirstFailing(cl, "M"),
-                 IF XformKnown(t) THEN "F-C15-1" ELSE "none">>)
+                 IF ~Has(t, "masters") /\ XformKnown(t) THEN "F-C15-1" ELSE "none">>)
   /\ i' = i + 1
 Spec == Init /\ [][Next]_vars
 
